@@ -1,11 +1,13 @@
 use std::time::Duration;
 
-use datacake_crdt::HLCTimestamp;
+use datacake_crdt::{HLCTimestamp, TimestampError, TIMESTAMP_MAX};
 use tokio::sync::oneshot;
 
 use crate::NodeId;
 
 const CLOCK_BACKPRESSURE_LIMIT: u16 = u16::MAX - 10;
+/// The resolution of the logical time of a timestamp.
+const CLOCK_TICK: Duration = Duration::from_millis(4);
 
 #[derive(Clone)]
 pub struct Clock {
@@ -55,7 +57,18 @@ async fn run_clock(mut clock: HLCTimestamp, reqs: flume::Receiver<Event>) {
     while let Ok(event) = reqs.recv_async().await {
         match event {
             Event::Get(tx) => {
-                let ts = clock.send().expect("Clock counter should not overflow");
+                let ts = match clock.send() {
+                    // Every counter value of the current instant has been handed out,
+                    // carry on with the next instant rather than giving up.
+                    Err(TimestampError::Overflow) => {
+                        next_instant(&clock, clock.node()).and_then(|next| {
+                            clock = next;
+                            clock.send().ok()
+                        })
+                    },
+                    other => other.ok(),
+                }
+                .expect("Clock counter should not overflow");
                 #[cfg(feature = "verif")]
                 crate::verif::record_clock_event((0, 0, clock.as_u64(), ts.as_u64()));
 
@@ -66,7 +79,13 @@ async fn run_clock(mut clock: HLCTimestamp, reqs: flume::Receiver<Event>) {
                 let _ = tx.send(ts);
             },
             Event::Register(remote_ts) => {
-                let _ = clock.recv(&remote_ts);
+                if let Err(TimestampError::Overflow) = clock.recv(&remote_ts) {
+                    // No counter value is left for the instant of the remote timestamp,
+                    // move past it so that everything issued from now on is still newer.
+                    if let Some(next) = next_instant(&remote_ts, remote_ts.node()) {
+                        let _ = clock.recv(&next);
+                    }
+                }
                 #[cfg(feature = "verif")]
                 crate::verif::record_clock_event((1, remote_ts.as_u64(), clock.as_u64(), 0));
 
@@ -76,6 +95,12 @@ async fn run_clock(mut clock: HLCTimestamp, reqs: flume::Receiver<Event>) {
             },
         }
     }
+}
+
+/// The first timestamp of the instant after `ts`, if it is representable.
+fn next_instant(ts: &HLCTimestamp, node: u8) -> Option<HLCTimestamp> {
+    let time = ts.datacake_timestamp() + CLOCK_TICK;
+    (time.as_secs() <= TIMESTAMP_MAX).then(|| HLCTimestamp::new(time, 0, node))
 }
 
 #[cfg(test)]
